@@ -14,6 +14,8 @@ import (
 
 func init() { registerProp("C09", runC09) }
 
+var shrinkIOSites = []string{"shrink.write", "shrink.sync", "shrink.swap.write", "shrink.swap.sync"}
+
 var shrinkPoints = []string{"shrink.copied", "shrink.swap.synced", "shrink.swap.closed", "shrink.swap.renamed1", "shrink.swap.renamed2", "shrink.swap.reopened"}
 
 // c09Dataset generates the commands that build the initial dataset.
@@ -199,6 +201,14 @@ func runC09(w *World) {
 	}
 	shr := w.addActor(n, "127.0.0.1:50100", []Cmd{{Args: []string{"AOFSHRINK"}}})
 	shr.weight = 20
+	// disk errors: in some runs one write or sync of the (first) rewrite fails, as on a full disk.
+	// The rewrite must give up and leave the live log, the served dataset and later appends intact.
+	ioerr := w.knob("ioerr", 12) // 1..4 = failing operation, otherwise none
+	if ioerr >= 1 && ioerr <= len(shrinkIOSites) {
+		inst.failAt = map[string]int{shrinkIOSites[ioerr-1]: 1}
+	} else {
+		ioerr = 0
+	}
 	// which crash point this run aims at (0 = none, 1..6 = named swap point, 7 = a drawn ordinary decision point)
 	target := w.knob("crashat", 8)
 	crashed := false
@@ -371,6 +381,33 @@ func runC09(w *World) {
 			return
 		}
 		w.nontriv = w.stats["probe.reached.shrink.swap.reopened"] > 0
+		if ioerr > 0 {
+			fired := w.stats["fault.io_error."+shrinkIOSites[ioerr-1]] > 0
+			if fired && hc.lm.gen > 0 {
+				w.violate("C09/ioerr", "the rewrite replaced the live log although its %s failed", shrinkIOSites[ioerr-1])
+				return
+			}
+			w.nontriv = fired
+			if fired && w.knob("again", 2) == 1 {
+				// the next rewrite finds the disk healthy
+				shr2 := w.addActor(n, "127.0.0.1:50101", []Cmd{{Args: []string{"AOFSHRINK"}}})
+				shr2.weight = 20
+				shr = shr2
+				w.Drain(60*time.Second, func() bool { return shr2.done() && n.inst.srv.shrinking })
+				w.Drain(60*time.Second, allDone)
+				if w.failed() {
+					return
+				}
+				if hc.lm.gen > 0 {
+					w.stat("probe.rewrite_succeeds_after_failed_one", 1)
+				}
+				hc.lm.poll()
+				hc.stepHook()
+				if w.failed() {
+					return
+				}
+			}
+		}
 		// deadlines before the restart (for the "not shortened" check)
 		before := n.inst.dump()
 		tBefore := time.Now()
